@@ -45,6 +45,8 @@ static rc::Gen<Op> c08_op()
 	    {2, op_gen(CHANGE, conn, path, val, aim, zero(), idmode(), jn)},
 	    {1, op_gen(REMOVE, conn, path, zero(), aim, zero(), idmode(), jn)},
 	    {6, op_gen(AUTH, conn, rng(0, 6), rc::gen::weightedElement<int>({{6, 0}, {2, 1}, {1, 2}}), zero(), zero(), idmode(), jn)},
+	    // a credential-carrying message that is not valid JSON (d = 1..: expanded by c08_gen): the connection ends, and nothing of it may be logged or echoed
+	    {2, op_gen(AUTH, conn, rng(0, 6), zero(), zero(), rng(1, 9), zero(), nojoin())},
 	    {5, op_gen(FETCH, conn, rng(0, 4), rng(0, 4), zero(), zero(), idmode(), jn)},
 	    {2, op_gen(UNFETCH, conn, rng(0, 4), zero(), zero(), zero(), idmode(), jn)},
 	    {5, op_gen(GET, conn, zero(), rng(0, 4), zero(), zero(), idmode(), jn)},
@@ -96,7 +98,19 @@ static rc::Gen<Scenario> c08_gen()
 			}
 			{ Op o; o.kind = CONNECT; o.a = 0; o.b = origin0; sc.ops.push_back(o); }
 			for (int t : transports) { Op o; o.kind = CONNECT; o.a = t % 3; o.b = t / 3; sc.ops.push_back(o); }
-			for (auto &o : ops) sc.ops.push_back(o);
+			for (auto &o : ops) {
+				if (o.kind == AUTH && o.d > 0) {
+					std::string user = sc.users.empty() ? "nobody" : sc.users[(size_t)o.a % sc.users.size()], pw = sc.passwords.empty() ? "Pw-x-sEcReT0" : sc.passwords[(size_t)o.a % sc.passwords.size()];
+					if (sc.passwords.empty()) sc.passwords.push_back(pw); // (scanned for in everything written or logged)
+					std::string head = std::string("{\"id\":77,\"method\":\"") + (o.d % 2 ? "authenticate" : "passwd") + "\",\"params\":{\"user\":\"" + user + "\",\"password\":\"" + pw + "\"";
+					// (only texts that are broken before the value is complete: what follows a complete value is not looked at by the daemon's parser)
+					static const char *tails[] = {"", "},}", ";}}", "}", " \"x\"}}", ",}}"};
+					Op m; m.kind = MSG; m.conn = o.conn; m.s = head + tails[(size_t)o.d % 6];
+					sc.ops.push_back(m);
+					continue;
+				}
+				sc.ops.push_back(o);
+			}
 			return sc;
 		}, rc::gen::resize(5, rc::gen::container<std::vector<UserSpec>>(user_gen(universe))),
 		   rc::gen::resize(6, rc::gen::container<std::vector<std::vector<int>>>(rc::gen::resize(6, rc::gen::container<std::vector<int>>(rng(0, universe + 1))))),
